@@ -2,6 +2,7 @@
 import uuid as _uuid
 
 from ..core.loader import AnalysisError
+from ..core import rxmodel
 from ..core.table import extract, grid_compare
 from ..core.termeval import ev, Raised
 from ..core.values import K, T, Obj, TupleV, ListV, ExtRef, FuncRef, show
@@ -27,6 +28,23 @@ UUID_GRID = (
     '1234-5678-1234-5678-1234-5678-1234-5678',
     '', 'not a uuid', None, 5, 1.5, b'12345678123456781234567812345678',
 )
+
+
+def _decorated():
+    """Every decoration uuid.UUID() strips, in every nesting order."""
+    out = []
+    dashed = '12345678-1234-5678-1234-567812345678'
+    for body in (dashed, dashed.replace('-', ''), 'ABCDEFab' + dashed[8:],
+                 dashed[:-1], dashed + '9'):
+        for pre in ('', 'urn:', 'uuid:', 'urn:uuid:', 'uuid:urn:'):
+            out += [pre + body, '{' + pre + body + '}',
+                    pre + '{' + body + '}', pre + body + '}',
+                    '{' + pre + body, '{{' + pre + body + '}}',
+                    pre + body + '\n', ' ' + pre + body]
+    return tuple(out)
+
+
+UUID_GRID = UUID_GRID + tuple(x for x in _decorated() if x not in UUID_GRID)
 
 
 def memo_check(rep, rule, world, modname, fname, why=None):
@@ -192,6 +210,7 @@ def _ints(ctx):
         return interp.call(g, [val])
 
     def setup2(interp):
+        rxmodel.install(interp)
         interp.call_raises['int'] = ['ValueError', 'TypeError']
     outcomes, _i = extract(world, thunk2, setup=setup2)
 
@@ -204,7 +223,9 @@ def _ints(ctx):
     grid_compare(rep, 'R14.3', 'is_int_like', 'values', outcomes,
                  {val: ('1', '01', '1.0', 1, 1.0, None, 'a', ' 1', '-5',
                         '+5', '1_000', '', '-0', 0, (1,), True, False,
-                        10 ** 20, '\u0661')}, oracle2)
+                        10 ** 20, '\u0661', '5\n', '-12\n', '0\n',
+                        '1\u0662', '5 ', '\t5', '--5', '-', '0x5', '5e0',
+                        -0.0, -7, b'5')}, oracle2, hooks=[rxmodel.hook])
 
 
 def _strlen(ctx):
